@@ -272,6 +272,52 @@ def oracle_handoff(payload, pipe_text):
     return None
 
 
+def scen_handoff_cosim(rng, n):
+    """co-simulation of Conc.Handoff (observe_on) / Conc.Handoff.SubOn (subscribe_on): script x mode x unsubscriber"""
+    scripts = ["1 c", "1 2 c", "1 e3", "e4", "c", "1 2 3 e4", "1 2", "", "1 c 2 e5", "e3 1 c"]
+    for _ in range(max(0, n - 8)):
+        items = [str(rng.randint(0, 3)) for _ in range(rng.randint(0, 3))]
+        scripts.append(" ".join(items + rng.choice([["c"], ["e5"], [], ["c", "7"]])))
+    out = []
+    for sc in dict.fromkeys(scripts):
+        terminated = any(tok == "c" or tok.startswith("e") for tok in sc.split())
+        for mode in ("observe", "subscribe"):
+            # a script without terminal parks the worker for good: such a subscription is always ended by an unsubscriber
+            modes = ["race"] + (["none"] if terminated else ["late"])
+            if mode == "subscribe" and not terminated:
+                modes = ["race"]          # (the source is synchronous: `late` = `race`)
+            for u in modes:
+                out.append("(conc C09-cosim-%d (handoff %s (script %s) (unsub %s)))" % (len(out), mode, sc, u))
+    return out
+
+
+def oracle_handoff_cosim(payload):
+    """what the subscriber saw (recorded by the callbacks themselves, not taken from the lock log)"""
+    parts = payload.split(" ; ")
+    if len(parts) != 3:
+        return "malformed record"
+    hdr, obs = parts[0], parts[1]
+    script = hdr.split("script=", 1)[1].split()
+    unsub = re.search(r"unsub=(\w+)", hdr).group(1)
+    want = []
+    for tok in script:
+        want.append(tok if tok == "c" or tok.startswith("e") else "n" + tok)
+        if tok == "c" or tok.startswith("e"):
+            break
+    got = [x for x in re.search(r"got=(\S*)", obs).group(1).split(",") if x]
+    tids = {x.split(":")[0] for x in got}
+    evs = [x.split(":", 1)[1] for x in got]
+    if tids - {"1"}:
+        return "callback delivered on a thread that is not the scheduler's worker: %s" % sorted(tids)
+    if unsub == "none" and evs != want:
+        return "delivered %s, the source emitted %s" % (" ".join(evs), " ".join(want))
+    if evs != want[:len(evs)]:
+        return "delivered %s, not a prefix of what the source emitted: %s" % (" ".join(evs), " ".join(want))
+    if "wexit=T" not in obs:
+        return "the scheduler's worker thread did not exit"
+    return None
+
+
 def scen_merge(rng, n):
     out = []
     i = 0
@@ -441,10 +487,41 @@ def scen_time(rng, n):
     for gaps, d2, d in (([5, 15], 10, 20), ([5, 12, 12], 9, 20), ([8, 8], 7, 10)):
         evs = " ".join("(%d (n %d))" % (gp, k + 1) for k, gp in enumerate(gaps))
         out.append(("(conc C16-%d (pipe (sub (delay %d (timeout %d (tsrc 0 %s (3 c)))) (react))))" % (i, d2, d, evs), ("timeout+delay", d, gaps, d2))); i += 1
+    # random gap / handling scripts from the grid (no ties: a gap never equals the period)
+    for _ in range(n):
+        d = rng.choice([7, 10, 20])
+        k = rng.randint(1, 4)
+        gaps = [rng.choice([g for g in (3, 5, 8, 12, 15, 25, 30) if g != d]) for _ in range(k)]
+        hs = [rng.choice([0, 0, 4, 9]) for _ in range(k)]
+        evs = " ".join("(%d (n %d))" % (gp, j + 1) for j, gp in enumerate(gaps))
+        react = " ".join("(%d (sleep %d))" % (j, h) for j, h in enumerate(hs) if h)
+        if rng.random() < 0.6:
+            completes = rng.random() < 0.6
+            out.append(("(conc C16-%d (pipe (sub (timeout %d (tsrc 0 %s%s)) (react %s))))" % (i, d, evs, " (3 c)" if completes else "", react),
+                        ("timeout", d, gaps, completes, hs))); i += 1
+        else:
+            out.append(("(conc C16-%d (pipe (sub (delay %d (tsrc 0 %s (1 c))) (react %s))))" % (i, d, evs, react), ("delay", d, gaps, hs))); i += 1
     # debounce / sample: only items the source emitted, in order, none twice
     out.append(("(conc C16-%d (pipe (sub (debounce 10 (tsrc 0 (3 (n 1)) (3 (n 2)) (25 (n 3)) (3 (n 4)) (30 c))) (react))))" % i, ("subseq", [1, 2, 3, 4]))); i += 1
     out.append(("(conc C16-%d (pipe (sub (sample (tsrc 0 (3 (n 1)) (3 (n 2)) (25 (n 3)) (3 (n 4)) (30 c)) (interval 10)) (react)) (unsub-after 0 90)))" % i, ("subseq", [1, 2, 3, 4]))); i += 1
     return out
+
+
+_LEAN_EXPECTED = {}
+
+def lean_expected(request):
+    """[(event, instant)] as computed by the Lean model for one request line of `rxmodel timed`"""
+    if request not in _LEAN_EXPECTED:
+        p = subprocess.run([run.RXMODEL, "timed"], input=request + "\n", stdout=subprocess.PIPE, text=True)
+        out = p.stdout.strip()
+        if p.returncode != 0 or out.startswith("error") or out.startswith("PARSE"):
+            raise RuntimeError("rxmodel timed %r: %s" % (request, out))
+        res = []
+        for tok in out.split():
+            ev, t = tok.rsplit("@", 1)
+            res.append(("e?" if ev == "eT" else ev, int(t)))
+        _LEAN_EXPECTED[request] = res
+    return _LEAN_EXPECTED[request]
 
 
 def oracle_time(payload, info):
@@ -457,60 +534,40 @@ def oracle_time(payload, info):
         return m
     kind = info[0]
     got = [(e[1], e[2]) for e in evs]
+    # the expected (event, instant) lists come from the Lean model: `Rx.Timed.expectedLine` prints the lists the
+    # theorems interval_expected / timer_expected / delay_times / timeout_exact speak about (`rxmodel timed`)
     if kind == "interval":
         per, k = info[1], info[2]
-        want = [("n%d" % j, (j + 1) * per) for j in range(k)]
+        want = lean_expected("interval %d %d" % (per, k))
         items = [g for g in got if g[0][0] == "n"]
         if items != want:
             return "interval(%d) delivered %s, expected %s" % (per, items, want)
     elif kind == "timer":
         per = info[1]
-        if got != [("nu", per), ("c", per)]:
-            return "timer(%d) delivered %s" % (per, got)
+        want = lean_expected("timer %d" % per)
+        if got != want:
+            return "timer(%d) delivered %s, expected %s" % (per, got, want)
     elif kind == "timeout":
         # gaps[k] = time between the return of the previous emission and item k; handling[k] = time the
-        # subscriber spends inside its callback for item k (it blocks the source thread).  The timer is
-        # armed when the item has been handed on, and a successor cancels it when it arrives.
+        # subscriber spends inside its callback for item k (it blocks the source thread)
         dd, gaps, completes = info[1], info[2], info[3]
         handling = info[4] if len(info) > 4 else [0] * len(gaps)
-        t = 0
-        want = []
-        timed_out = False
-        for k, gp in enumerate(gaps):
-            if k > 0 and gp > dd:
-                want.append(("e?", t + dd)); timed_out = True
-                break
-            t += gp
-            want.append(("n%d" % (k + 1), t))
-            t += handling[k]
-        if not timed_out:
-            if completes and 3 <= dd:
-                want.append(("c", t + 3))
-            elif not completes:
-                want.append(("e?", t + dd))
+        req = "timeout %d %s%s" % (dd, " ".join("%d:%d:%d" % (gp, k + 1, handling[k]) for k, gp in enumerate(gaps)), " c:3" if completes else "")
+        want = lean_expected(req)
         if got != want:
             return "timeout(%d) over gaps %s (handling %s) delivered %s, expected %s" % (dd, gaps, handling, got, want)
     elif kind == "timeout+delay":
+        # delay(d2) downstream of timeout: every item keeps the source thread for d2 (handling time d2 as seen by
+        # timeout) and reaches the subscriber d2 after timeout handed it on
         dd, gaps, d2 = info[1], info[2], info[3]
-        t = 0
-        want = []
-        for k, gp in enumerate(gaps):
-            t += gp + d2
-            want.append(("n%d" % (k + 1), t))
-        want.append(("c", t + 3))
+        inner = lean_expected("timeout %d %s c:3" % (dd, " ".join("%d:%d:%d" % (gp, k + 1, d2) for k, gp in enumerate(gaps))))
+        want = [(e, t + d2) if e[0] == "n" else (e, t) for e, t in inner]
         if got != want:
             return "delay(%d) after timeout(%d) over gaps %s delivered %s, expected %s" % (d2, dd, gaps, got, want)
     elif kind == "delay":
-        # the item is handed on d after it was received; the source thread is blocked meanwhile
         dd, gaps = info[1], info[2]
         handling = info[3] if len(info) > 3 else [0] * len(gaps)
-        t = 0
-        want = []
-        for k, gp in enumerate(gaps):
-            t += gp + dd
-            want.append(("n%d" % (k + 1), t))
-            t += handling[k]
-        want.append(("c", t + 1))
+        want = lean_expected("delay %d %s c:1" % (dd, " ".join("%d:%d:%d" % (gp, k + 1, handling[k]) for k, gp in enumerate(gaps))))
         if got != want:
             return "delay(%d) over gaps %s (handling %s) delivered %s, expected %s" % (dd, gaps, handling, got, want)
     elif kind == "subseq":
@@ -619,6 +676,73 @@ def oracle_subjects(payload, info):
                 k = vals.index(items[0])
                 if items != vals[k:]:
                     return "behavior late subscriber: gap or duplicate after the first value: got %s, values were %s" % (items, vals)
+    return None
+
+
+def scen_subjlts(rng, n):
+    """C12, co-simulation of Conc.Subject / Conc.Replay / Conc.Behavior (harness/conc/src/subjlts.rs): threads running
+    lists of `next v | subscribe o | unsubscribe o`; items unique per scenario, every observer subscribed at most once"""
+    base = [
+        "plain (pre 1) (thread (next 1) (next 2)) (thread (subscribe 1)) (thread (unsubscribe 0))",
+        "plain (pre 0) (thread (next 1) (next 2)) (thread (subscribe 0)) (thread (unsubscribe 0))",
+        "plain (pre 2) (thread (next 1) (next 2)) (thread (next 11)) (thread (unsubscribe 0) (subscribe 2)) (thread (unsubscribe 1) (unsubscribe 0))",
+        "plain (pre 1) (thread (subscribe 1) (unsubscribe 1) (next 3)) (thread (subscribe 2) (unsubscribe 0)) (thread (next 1) (next 2))",
+        "plain (pre 0) (thread (unsubscribe 0) (subscribe 0)) (thread (next 1))",
+        "replay (thread (next 1)) (thread (subscribe 0))",
+        "replay (thread (next 1) (next 2) (next 3)) (thread (subscribe 0))",
+        "replay (thread (next 1) (next 2)) (thread (subscribe 0)) (thread (unsubscribe 0))",
+        "replay (thread (next 1) (next 2)) (thread (subscribe 0) (unsubscribe 0)) (thread (next 11) (subscribe 1))",
+        "replay (thread (subscribe 0) (next 1)) (thread (unsubscribe 0) (unsubscribe 0)) (thread (subscribe 1) (unsubscribe 1))",
+        "behavior (init 0) (thread (next 1)) (thread (subscribe 0))",
+        "behavior (init 0) (thread (next 1) (next 2) (next 3)) (thread (subscribe 0))",
+        "behavior (init 0) (thread (next 1) (next 2)) (thread (subscribe 0)) (thread (unsubscribe 0))",
+        "behavior (init 7) (thread (next 1) (next 2)) (thread (subscribe 0) (unsubscribe 0)) (thread (next 11) (subscribe 1))",
+        "behavior (init 0) (thread (subscribe 0) (next 1)) (thread (unsubscribe 0) (unsubscribe 0)) (thread (subscribe 1) (unsubscribe 1))",
+    ]
+    for _ in range(n):
+        kind = rng.choice(["plain", "plain", "replay", "behavior"])
+        pre = rng.choice([0, 1, 1, 2]) if kind == "plain" else 0
+        nt = rng.choice([2, 3, 3, 4])
+        nobs = pre + rng.choice([1, 1, 2])
+        fresh = list(range(pre, nobs))          # observers that may still be subscribed (once each)
+        item = [0]
+        ths = []
+        for t in range(nt):
+            ops = []
+            for _ in range(rng.randint(1, 3)):
+                r = rng.random()
+                if r < 0.45:
+                    item[0] += 1
+                    ops.append("(next %d)" % (10 * (t + 1) + item[0]))
+                elif r < 0.70 and fresh:
+                    ops.append("(subscribe %d)" % fresh.pop(rng.randrange(len(fresh))))
+                else:
+                    ops.append("(unsubscribe %d)" % rng.randrange(nobs))
+            ths.append("(thread %s)" % " ".join(ops))
+        hdr = "plain (pre %d)" % pre if kind == "plain" else ("behavior (init 0)" if kind == "behavior" else "replay")
+        base.append("%s %s" % (hdr, " ".join(ths)))
+    return ["(conc C12-lts-%d (subjlts %s))" % (i, b) for i, b in enumerate(dict.fromkeys(base))]
+
+
+def oracle_subjlts(payload):
+    """independent of the LTS: on a plain Subject every observer gets, from each producer, a gap-free block of that
+    producer's calls in call order, nothing twice (C12 (a)-(c)); Replay / Behavior have the known findings F14, so
+    only the co-simulation judges them"""
+    parts = payload.split(" ; ")
+    if len(parts) != 4:
+        return "malformed record"
+    if not parts[0].startswith("kind=plain"):
+        return None
+    m = re.search(r"recv=(\S*)", parts[2])
+    for ob in (m.group(1).split("|") if m else []):
+        o, _, es = ob.partition(":")
+        per = {}
+        for e in [x for x in es.split(",") if x]:
+            t, k, v = e.split(".")
+            per.setdefault(t, []).append(int(k))
+        for t, ks in per.items():
+            if ks != list(range(ks[0], ks[0] + len(ks))):
+                return "plain subject: observer %s got calls %s of producer %s: not a gap-free block in call order" % (o, ks, t)
     return None
 
 
@@ -780,14 +904,114 @@ def oracle_race(payload, info):
     return None
 
 
+# ---- co-simulation of the C11 LTSs (harness/conc/src/sctl.rs; lean/RxVerif/Conc/SctlCosim.lean) ------------------
+
+def _sctl_inputs(rng, k, lo, hi, ends):
+    ins = []
+    for m in range(k):
+        items = [str(10 * m + j + 1) for j in range(rng.randint(lo, hi))]
+        end = rng.choice(ends)
+        ins.append("(in %s)" % " ".join(items + ([end] if end else [])))
+    return " ".join(ins)
+
+
+def scen_sctl(kind):
+    """scenario generator of one model: k raw threads push scripts into merge / take(n) / amb / zip"""
+    fixed = {
+        "sctl": ["merge (in 1 c) (in 11 c)", "merge (in 1 2 c) (in 11 e5)", "merge (in 1 2 c) (in 11 12 c) (in 21 c)",
+                 "merge (in 1 2 c) (in 11 c) (unsub 30)", "merge (in 1 e3) (in 11 e5) (in c)", "merge (in 1 2 c) (in 11 c) (unsub)",
+                 "merge (in c) (in c) (in 21 c)"],
+        "take": ["take 2 (in 1 2 c) (in 3 4)", "take 1 (in 1 2) (in 3 c)", "take 3 (in 1 2 c) (in 3 4 c) (in 5)", "take 0 (in 1) (in 3 c)",
+                 "take 2 (in 1 c) (in 3 c)", "take 5 (in 1 2 c) (in 3 c)"],
+        "amb": ["amb (in 1 2 c) (in 11 c)", "amb (in 1) (in 11 12)", "amb (in 1 2 c) (in 11 12 c) (in 21 c)", "amb (in c) (in 11 c)",
+                "amb (in c) (in c) (in 21 22)", "amb (in 1 c) (in 11 c) (in 21 c)"],
+        "zip": ["zip (in 1 2) (in 11 12)", "zip (in 1 2 3) (in 11 12) (in 21 22)", "zip (in 1 2) (in 11 12) (unsub 25)", "zip (in 1) (in 11 12 13)",
+                "zip (in 1 2) (in 11 12) (unsub)", "zip (in 1 2) (in 11 12) (in 21 22) (unsub 40)"],
+    }[kind]
+    def gen(rng, n):
+        out = list(fixed)
+        for _ in range(max(0, n // 4)):
+            k = rng.choice([2, 2, 3])
+            if kind == "sctl":
+                u = rng.choice(["", "", " (unsub %d)" % rng.choice([0, 10, 25, 40])])
+                out.append("merge %s%s" % (_sctl_inputs(rng, k, 0, 2, ["c", "c", "e7"]), u))
+            elif kind == "take":
+                out.append("take %d %s" % (rng.randint(0, 3), _sctl_inputs(rng, k, 1, 2, ["c", ""])))
+            elif kind == "amb":
+                out.append("amb %s" % _sctl_inputs(rng, k, 0, 2, ["c", "c", ""]))
+            else:
+                u = rng.choice(["", "", " (unsub %d)" % rng.choice([0, 10, 25, 40])])
+                out.append("zip %s%s" % (_sctl_inputs(rng, k, 1, 3, [""]), u))
+        return ["(conc C11-%s-%d (sctl %s))" % (kind, i, t) for i, t in enumerate(dict.fromkeys(out))]
+    return gen
+
+
+def oracle_sctl(payload):
+    """the C11 clauses, judged on what the subscriber's callbacks recorded (independent of the LTS replay)"""
+    parts = payload.split(" ; ")
+    if len(parts) != 3:
+        return "malformed record"
+    hdr = parts[0].split(" / ")
+    op = hdr[0].split()
+    scripts = [h.split() for h in hdr[1:] if not h.startswith("BAD-IDS")]
+    unsub = any(sc == ["unsub"] for sc in scripts) or " unsub" in (";" + parts[2]).replace(";", " ")
+    scripts = [sc for sc in scripts if sc != ["unsub"]]
+    m = re.search(r"impl=(\S*)", parts[1])
+    evs = [tuple(x.split(":", 1)) for x in m.group(1).split(",") if x] if m else []
+    if op[0] == "zip":
+        evs = [tuple(x.split(":", 1)) for x in re.findall(r"\d+:n\[[^\]]*\]", m.group(1))] if m else []
+    terms = [e for e in evs if not e[1].startswith("n")]
+    items = [e for e in evs if e[1].startswith("n")]
+    if len(terms) > 1:
+        return "two terminal callbacks started: %s" % evs
+    def its(sc):
+        return [x for x in sc if re.fullmatch(r"-?\d+", x)]
+    if op[0] in ("merge", "amb"):
+        for t in {e[0] for e in items}:
+            got = [e[1][1:] for e in items if e[0] == t]
+            want = its(scripts[int(t)])
+            if got != want[:len(got)]:
+                return "%s reordered / invented items of input %s: %s" % (op[0], t, got)
+    if op[0] == "merge":
+        if terms and terms[0][1] == "c":
+            if any(sc[-1] != "c" for sc in scripts) and not unsub:
+                return "merge completed although an input ended with an error"
+        if not unsub and all(sc[-1] == "c" for sc in scripts):
+            if sorted(e[1][1:] for e in items) != sorted(x for sc in scripts for x in its(sc)):
+                return "merge lost an item: %s" % evs
+            if [e[1] for e in evs][-1:] != ["c"]:
+                return "merge did not complete after the last item: %s" % evs
+    elif op[0] == "take":
+        if len(items) > int(op[1]):
+            return "take(%s) delivered %d items" % (op[1], len(items))
+        allit = [x for sc in scripts for x in its(sc)]
+        if any(e[1][1:] not in allit for e in items):
+            return "take invented an item"
+    elif op[0] == "amb":
+        if len({e[0] for e in evs}) > 1:
+            return "amb let two inputs through: %s" % evs
+    elif op[0] == "zip":
+        n = min(len(sc) for sc in scripts)
+        want = ["[%s]" % ",".join(sc[j] for sc in scripts) for j in range(n)]
+        got = [e[1][1:] for e in items]
+        if len(set(got)) != len(got) or any(g not in want for g in got):
+            return "zip delivered %s, the tuples are %s" % (got, want)
+        if not unsub and sorted(got) != sorted(want):
+            return "zip lost a tuple: %s of %s" % (got, want)
+    return None
+
+
 CONC = {
     "C08": dict(model="queue", scen=scen_queue, oracle=oracle_queue, corr="Conc.Queue (lean/RxVerif/Conc/Queue.lean) vs src/schedulers/async_function_queue.rs, new_thread_scheduler.rs"),
     "C19": dict(model="obs", scen=scen_obs, oracle=oracle_obs, corr="Conc.Observer (lean/RxVerif/Conc/Observer.lean) vs src/observer.rs + src/internals/function_wrapper.rs",
                 more=[dict(model=None, scen=scen_race, oracle=oracle_race, info=True)]),
     "C18": dict(model="tovec", scen=scen_tovec, oracle=oracle_tovec, corr="Conc.ToVec (lean/RxVerif/Conc/ToVec.lean) vs src/operators/to_vec.rs"),
-    "C12": dict(model=None, scen=scen_subjects, oracle=oracle_subjects, corr="Conc.Subject / Conc.Replay / Conc.Behavior vs src/subjects/*.rs", info=True),
-    "C09": dict(model=None, scen=scen_handoff, oracle=oracle_handoff, corr="Conc.Handoff vs src/operators/observe_on.rs, subscribe_on.rs", info=True),
-    "C11": dict(model=None, scen=scen_merge, oracle=oracle_merge, corr="Conc.Sctl / Conc.TakeAmbZip vs stream_controller.rs, merge/zip/amb/take", info=True),
+    "C12": dict(model=None, scen=scen_subjects, oracle=oracle_subjects, corr="Conc.Subject / Conc.Replay / Conc.Behavior vs src/subjects/*.rs", info=True,
+                more=[dict(model="subjlts", kind="subjlts", scen=scen_subjlts, oracle=oracle_subjlts, iters=(2000, 6000))]),
+    "C09": dict(model=None, scen=scen_handoff, oracle=oracle_handoff, corr="Conc.Handoff vs src/operators/observe_on.rs, subscribe_on.rs", info=True,
+                more=[dict(model="handoff", kind="handoff", scen=scen_handoff_cosim, oracle=oracle_handoff_cosim, iters=(2000, 10000))]),
+    "C11": dict(model=None, scen=scen_merge, oracle=oracle_merge, corr="Conc.Sctl / Conc.TakeAmbZip vs stream_controller.rs, merge/zip/amb/take", info=True,
+                more=[dict(model=m, kind="sctl " + ("merge" if m == "sctl" else m), scen=scen_sctl(m), oracle=oracle_sctl, iters=(2000, 6000)) for m in ("sctl", "take", "amb", "zip")]),
     "C15": dict(model=None, scen=scen_threads, oracle=oracle_threads, corr="Conc.Timed / Conc.Queue vs scheduler-based operators", info=True,
                 more=[dict(model=None, scen=scen_ties, oracle=oracle_threads, info=True, iters=(1500, 12000))]),
     "C16": dict(model=None, scen=scen_time, oracle=oracle_time, corr="Conc.Timed vs interval/timer/delay/timeout/debounce/sample", info=True),
@@ -878,6 +1102,9 @@ def run_conc(prop, tier, seed, jobs, write_evidence, write_replay, load_known):
     total_schedules = sum(int(re.search(r"iterations=(\d+)", l).group(1)) for l in done)
     main_ids = {x.split()[1] for x in scen} - {x.split()[1] for g in extra_groups for x in g[1]}
     co = cosim(cfg["model"], [l for l in execs if l.split(" | ")[0] in main_ids], jobs) if cfg.get("model") else {}
+    for g, gs, ginfo, glines in extra_groups:
+        if g.get("model"):        # a `more` group with its own LTS is co-simulated too
+            co.update(cosim(g["model"], [l for l in glines if l.count(" | ") >= 3], jobs))
     by_id = {s.split()[1]: s for s in scen}
     oracle_fail, rejects, bad_status = [], [], []
     steps = 0
@@ -891,6 +1118,13 @@ def run_conc(prop, tier, seed, jobs, write_evidence, write_replay, load_known):
             msg = grp[0]["oracle"](payload, grp[2].get(sid)) if grp[0].get("info") else grp[0]["oracle"](payload)
             if msg:
                 oracle_fail.append((l, msg))
+            if grp[0].get("model"):
+                c = co.get(l, "")
+                if " REJECT " in c or not c:
+                    rejects.append((l, c or "no answer from rxmodel cosim %s" % grp[0]["model"]))
+                else:
+                    m = re.search(r"steps=(\d+)", c)
+                    steps += int(m.group(1)) if m else 0
             continue
         msg = cfg["oracle"](payload, info.get(sid)) if cfg.get("info") else cfg["oracle"](payload)
         if msg:
@@ -910,8 +1144,10 @@ def run_conc(prop, tier, seed, jobs, write_evidence, write_replay, load_known):
     known = [k for k in load_known() if k["property"] == prop]
     def report(l, what, suffix=""):
         sid, meta, status, detail, payload = parse_exec(l)
+        grp_ = next((g for g in extra_groups if sid in {x.split()[1] for x in g[1]}), None)
+        inf = (grp_[2].get(sid) if grp_ is not None else info.get(sid)) if (grp_ is not None or cfg.get("info")) else None
         path = write_replay(prop, {"scenario": by_id.get(sid, sid), "seed": int(meta.get("seed", 0)), "strategy": meta.get("strat", "random"),
-                                   "what": what, "record": l[:6000]})
+                                   "what": what, "info": inf, "record": l[:6000]})
         violations.append((path, suffix))
     seen_what = set()
     printed_known = set()
@@ -948,6 +1184,54 @@ def run_conc(prop, tier, seed, jobs, write_evidence, write_replay, load_known):
     return 1 if violations else 0
 
 
+def lockorder_supplement(tier, seed, jobs):
+    """C07, cross-thread part: every scenario family of the concurrent checks is executed under seeded schedules;
+    per execution the harness derives the lock-order relation (lock held -> lock acquired, lock instances) and a rank
+    certificate; verdicts other than `ok` (a thread re-acquired a lock it holds; a cycle) and executions that shuttle
+    ended as deadlock / step-limit are failures; a sample of certificates (the first distinct executions of every
+    scenario) is re-checked by the verified checker Rx.LockOrder.checkTrace (`rxmodel lockrank`)."""
+    build()
+    rng = random.Random(seed * 7919 + 7)
+    thorough = tier == "thorough"
+    scen = []
+    for f in (scen_obs, scen_tovec, scen_queue, scen_handoff, scen_merge, scen_threads, scen_ties, scen_time, scen_subjects, scen_race):
+        for x in f(rng, 20 if thorough else 4):
+            scen.append(x[0] if isinstance(x, tuple) else x)
+    scen = [re.sub(r"^\(conc (\S+)", lambda m: "(conc C07-%d-%s" % (i, m.group(1)), s_) for i, s_ in enumerate(scen)]
+    iters = 600 if thorough else 40
+    chunks = [scen[i::jobs] for i in range(jobs) if scen[i::jobs]]
+    def work(chunk):
+        env = dict(os.environ); env["RXH_LOCKCERT"] = "3"
+        try:
+            p = subprocess.run([RXH_CONC, str(seed), str(iters), "mixed"], input="\n".join(chunk) + "\n", stdout=subprocess.PIPE,
+                               stderr=subprocess.DEVNULL, text=True, timeout=3000, env=env)
+            return p.stdout.split("\n")
+        except subprocess.TimeoutExpired:
+            return ["%s | seed=0 n=0 strat=mixed | out=timeout  | " % c.split()[1] for c in chunk]
+    lines = []
+    with cf.ThreadPoolExecutor(max_workers=jobs) as ex:
+        for r in ex.map(work, chunks):
+            lines += r
+    certs = [l for l in lines if l.startswith("LOCKCERT ")]
+    execs = [l for l in lines if l.count(" | ") >= 3 and not l.startswith("LOCKCERT ")]
+    done = [l for l in lines if " | done " in l]
+    schedules = sum(int(re.search(r"iterations=(\d+)", l).group(1)) for l in done)
+    by_id = {x.split()[1]: x for x in scen}
+    failures = []
+    for l in execs:
+        sid, meta, status, detail, payload = parse_exec(l)
+        lo = re.match(r"lo=(\S+)", detail)
+        if status in ("deadlock", "selfdeadlock", "steps", "timeout"):
+            failures.append((l, by_id.get(sid, sid), "execution ended with %s %s" % (status, detail[:200])))
+        elif lo and lo.group(1) != "ok":
+            failures.append((l, by_id.get(sid, sid), "lock order: %s" % lo.group(1)))
+    out = run.run_lines(run.RXMODEL, ["lockrank"], certs, jobs) if certs else []
+    cert_fail = [(c[:300], o) for c, o in zip(certs, out) if " OK " not in o]
+    events = sum(int(m.group(1)) for o in out for m in [re.search(r"events=(\d+)", o)] if m)
+    return dict(scenarios=len(scen), schedules=schedules, executions=len(execs), failures=failures, certificates=len(certs),
+                certificate_failures=cert_fail, lock_events_checked=events)
+
+
 def replay(prop, r, path):
     build()
     sc = r.get("scenario")
@@ -959,11 +1243,21 @@ def replay(prop, r, path):
     out = p.stdout
     print(out[:3000])
     cfg = CONC.get(prop)
+    grp = next((g for g in (cfg or {}).get("more", []) if g.get("kind") and " (%s " % g["kind"] in sc), None)
+    if grp is not None:
+        cfg = dict(model=grp.get("model"), oracle=grp["oracle"], info=grp.get("info"))
     bad = False
+    info = r.get("info")
+    if isinstance(info, list):
+        info = tuple(info)
     for l in out.split("\n"):
         if l.count(" | ") >= 3:
             sid, meta, status, detail, payload = parse_exec(l)
-            if status != "ok" or (cfg and cfg["oracle"](payload)):
+            msg = None
+            if cfg:
+                msg = cfg["oracle"](payload, info) if cfg.get("info") else cfg["oracle"](payload)
+            if status != "ok" or msg:
+                print("oracle:", msg or status)
                 bad = True
             if cfg and cfg.get("model"):
                 c = cosim(cfg["model"], [l], 1).get(l, "")
